@@ -284,6 +284,11 @@ def castlePattern (r : Rng) : APos × Rng :=
     let (ex, r) := r.below 4
     let (exf, r) := r.below 8
     let b := if ex == 0 then place b (sq exf hr) ⟨white, .rook⟩ else b
+    -- … and sometimes a third and fourth one (the right may then sit on a MIDDLE rook of three on one wing)
+    let (ex2, r) := r.below 3
+    let (exf2, r) := r.below 8
+    let (exf3, r) := r.below 8
+    let b := if ex == 0 && ex2 == 0 then place (place b (sq exf2 hr) ⟨white, .rook⟩) (sq exf3 hr) ⟨white, .rook⟩ else b
     (b, (if hasK != 0 then some rfK else none), (if hasQ != 0 then some rfQ else none), kf, r)
   let (b, wK, wQ, wkf, r) := side true [] r
   -- the opponent: often a bare king far away, sometimes its own castling set-up
